@@ -301,6 +301,40 @@ fn main() {
             println!("manifest_creates={}", creates.join(","));
             println!("created_twice={}", creates.len() != uniq.len());
         }
+        // block_cache_collision : two tables share the block cache; cache ids are burnt so that the tables get ids 300 and 301, and the
+        // first (incompressible) value of each table is sized so that their second data blocks start at offsets 301 and 300 - each
+        // table's id equals the other's block offset. Table 2's second block is read (and cached) first, then table 1's: the second
+        // read must return table 1's value
+        "block_cache_collision" => {
+            let mk = || { let mut o = raindb::DbOptions::with_memory_env(); o.db_path = "db".to_string(); o.max_block_size = 16; o };
+            let o = mk();
+            let noise = |n: usize, seed: u32| -> Vec<u8> { let mut x = seed; (0..n).map(|_| { x = x.wrapping_mul(1664525).wrapping_add(1013904223); (x >> 24) as u8 }).collect() };
+            let mut found = None;
+            'search: for la in 250..300usize {
+                for lb in 250..300usize {
+                    let o2 = mk();
+                    let tables = vec![vec![(b"k".to_vec(), 5u64, noise(la, 1)), (b"m".to_vec(), 5, b"from-table-1".to_vec())], vec![(b"k".to_vec(), 5u64, noise(lb, 2)), (b"m".to_vec(), 5, b"from-table-2".to_vec())]];
+                    if let Some((_, offs, _)) = v::shared_block_cache_reads(&o2, 0, &tables, &[]) {
+                        if offs[0].get(1) == Some(&301) && offs[1].get(1) == Some(&300) {
+                            found = Some((la, lb));
+                            break 'search;
+                        }
+                    }
+                }
+            }
+            let (la, lb) = match found { Some(x) => x, None => { println!("setup=no-lengths-found"); return; } };
+            let tables = vec![vec![(b"k".to_vec(), 5u64, noise(la, 1)), (b"m".to_vec(), 5, b"from-table-1".to_vec())], vec![(b"k".to_vec(), 5u64, noise(lb, 2)), (b"m".to_vec(), 5, b"from-table-2".to_vec())]];
+            // table 1 is opened first (id 300) by a read of its first block, then table 2 (id 301)
+            let reads = vec![(0usize, b"k".to_vec(), 9u64), (1, b"m".to_vec(), 9), (0, b"m".to_vec(), 9), (1, b"m".to_vec(), 9)];
+            match v::shared_block_cache_reads(&o, 299, &tables, &reads) {
+                Some((last, offs, got)) => {
+                    println!("setup=ids {} and {}, second blocks at {:?} and {:?}", last + 1, last + 2, offs[0].get(1), offs[1].get(1));
+                    println!("table1_m={}", got[2].as_ref().map_or("none".to_string(), |v| String::from_utf8_lossy(v).to_string()));
+                    println!("table2_m={}", got[3].as_ref().map_or("none".to_string(), |v| String::from_utf8_lossy(v).to_string()));
+                }
+                None => println!("setup=failed"),
+            }
+        }
         // trivial_move n0 n1 : level 1 holds n0 (1..2) adjacent files which are the chosen inputs, level 2 holds n1 files that
         // overlap them; after the real input finalisation the manifest is asked whether this is a trivial move
         "trivial_move" => {
